@@ -44,7 +44,12 @@ TotalDraws == LET RECURSIVE S(_)
               IN S(ThreadIds)
 
 PrefixOf(s, r) == Len(s) <= Len(r) /\ s = SubSeq(r, 1, Len(s))
-PerThreadOK(t) == \E x \in RefIdx : PrefixOf(Streams[t], Refs[x])
+Cand(t) == {x \in RefIdx : PrefixOf(Streams[t], Refs[x])}
+CandOf == [t \in ThreadIds |-> Cand(t)]
+\* every thread is explained by a reference stream, and no two threads can only be explained by the very same one
+\* (a stream handed out twice is a duplicated draw; with generators that are seeded alike by design all candidate
+\* sets are the whole index set and the clause is void)
+PerThreadOK(t) == CandOf[t] # {} /\ (Cardinality(CandOf[t]) = 1 => \A u \in ThreadIds \ {t} : CandOf[u] # CandOf[t])
 \* where the stream leaves the reference it starts like (reference 0 if it starts like none)
 FirstBad(t) ==
     LET s == Streams[t]
@@ -61,6 +66,7 @@ Init == l = 1 /\ k = 0 /\ cur = [t \in ThreadIds |-> 0] /\ phase = "lines"
 
 Step(e) ==
     CASE e.ev = "result" -> (e.got # e.solo) => Mismatch(l, [ev |-> "result", t |-> e.t], "treap results differ from the same operations run alone")
+      [] e.ev = "solo" /\ "panic" \in DOMAIN e -> Mismatch(l, [ev |-> "result", t |-> e.idx, panic |-> e.panic], "node creation panicked on a thread that ran alone")
       [] OTHER -> TRUE
 
 Lines ==
@@ -75,7 +81,7 @@ JudgePerThread ==
     \* (an implication, not a disjunction: TLC explores both branches of a disjunction inside an action)
     /\ \A t \in ThreadIds : (~PerThreadOK(t)) =>
            Mismatch(0, [ev |-> "streams", design |-> Design, thread |-> t, first_deviation_at_draw |-> FirstBad(t),
-                        draws |-> Len(Streams[t])], "stream of the thread is not a prefix of any sequential stream")
+                        draws |-> Len(Streams[t])], "stream of the thread is not a prefix of any sequential stream, or two threads were handed the same stream")
     /\ Note("streams judged")
     /\ phase' = "done" /\ UNCHANGED <<l, k, cur>>
 
